@@ -2,6 +2,7 @@ package main
 
 import (
 	"fmt"
+	"math"
 	"strings"
 
 	"code.gopub.tech/tpl/exp"
@@ -46,6 +47,8 @@ func defaultEnv() *Env {
 	add("g", float64(-0.25))
 	add("f32", float32(2.5))
 	add("f32b", float32(0.1))
+	add("z0", float64(0))
+	add("nz", math.Copysign(0, -1))
 	add("ubig", uint64(1)<<63+5)
 	add("s", "hi")
 	add("e", "")
